@@ -5,7 +5,6 @@ import (
 	"encoding/json"
 	"fmt"
 
-	seccomp "github.com/elastic/go-seccomp-bpf"
 	"golang.org/x/net/bpf"
 	"pgregory.net/rapid"
 
@@ -64,7 +63,14 @@ func (c *compiled) encode() error {
 	return nil
 }
 
-func hostOrder() binary.ByteOrder { return seccomp.VerifByteOrder() }
+// hostOrder: the byte order in which events are laid out when no override is active. It is the machine's own
+// order, determined independently of the package (a wrong detection inside the package must show).
+func hostOrder() binary.ByteOrder {
+	if binary.NativeEndian.Uint16([]byte{1, 0}) == 1 {
+		return binary.LittleEndian
+	}
+	return binary.BigEndian
+}
 
 func fmtEvent(e spec.Event) string {
 	return fmt.Sprintf("{arch=%#x nr=%d(%#x) args=[%#x %#x %#x %#x %#x %#x]}", e.Arch, e.Nr, e.Nr, e.Args[0], e.Args[1], e.Args[2], e.Args[3], e.Args[4], e.Args[5])
